@@ -36,6 +36,7 @@ package iterator
 //@   ghost result.pos := 0
 //@   ghost result.pulls := 0
 //@   ensures fresh(result) && result.n == len(s) && result.pos == 0 && result.pulls == 0 && result.(*sliceIterator[T]).a == s
+//@   ensures dyntype(result) == typeof("iterator.sliceIterator")
 //@   ensures forall j int {result.seq[j]} :: 0 <= j && j < len(s) ==> result.seq[j] == s[j]
 
 //@ pred slRep(iter, it) = itInv(it) && len(iter.a) == it.n - it.pos
